@@ -427,7 +427,20 @@ def run_link_tie(res, rng, quick):
         out = impl_tr_card(mn, prm, tr)
         res.seen(('trcard', mn, tuple(prm), tuple(tr)), nontrivial=True)
         res.count('trcard:' + ('raised' if out is None else tag))
-        if out == 'transform' or (out and any(abs(sd) > 1 for _, _, sd in out)):
+        if out == 'transform':
+            if all(v in (0.0, 1.0, -1.0) for v in tr[3:]):
+                # a signed permutation keeps the axis on a coordinate axis:
+                # the linked model writes TORUSX/Y/Z without TRANSFORM
+                res.violation('correspondence',
+                              f'tie:link-C04: card {mn} {prm} under TR {tr}: '
+                              'the implementation writes a TRANSFORM although '
+                              'the moved axis is a coordinate axis',
+                              {'input': {'mnemonic': mn, 'params': prm,
+                                         'tr': tr},
+                               'theorem_or_correspondence': 'tie:link-C04'},
+                              found_input=False)
+            continue
+        if out and any(abs(sd) > 1 for _, _, sd in out):
             continue
         exp = copt(out, lambda o: clist(
             cpair(ty, c02.coq_floats(ps), cz(sd)) for ty, ps, sd in o))
